@@ -246,6 +246,13 @@ func c06Check(l *explore.Local, repo string, c c06Case) *explore.Fail {
 				continue // TIMA/TMA read-back is plain only outside the reload window; checked with the timer stopped
 			}
 			orig := rd(uint16(a))
+			// before anything is written in this state: the bits that always read 1 do so already
+			if reg.Kind == ref.RMasked && orig&reg.U != reg.U {
+				return explore.Failf(fmt.Sprintf("%s (%04X): the always-one bits do not read 1 before the register is written", reg.Name, a), "state %s: %04x reads %02x, bits %02x must read 1", c.State, a, orig, reg.U)
+			}
+			if reg.Kind == ref.RUnmapped && orig != 0xff {
+				return explore.Failf("unmapped I/O address does not read FF", "state %s: %04x reads %02x before any write", c.State, a, orig)
+			}
 			for v := 0; v < 256; v++ {
 				before := rd(uint16(a))
 				wr(uint16(a), uint8(v))
@@ -337,7 +344,9 @@ func allowedChange(w, x uint16, kind ref.CartKind, ch3On bool) bool {
 	case w == 0xff46:
 		return x >= 0xfe00 && x < 0xff00
 	case w == 0xff26:
-		return (x >= 0xff10 && x <= 0xff26) || (x >= 0xff30 && x <= 0xff3f)
+		// powering off stops channel 3: what FF30-FF3F read may change then, but only then (wave RAM is not a sound
+		// register and is not cleared)
+		return (x >= 0xff10 && x <= 0xff26) || (ch3On && x >= 0xff30 && x <= 0xff3f)
 	case w == 0xff10, w == 0xff12, w == 0xff17, w == 0xff21, w == 0xff14, w == 0xff19, w == 0xff23:
 		return x == 0xff26 // only the written channel's status bit: see allowedBits
 	case w == 0xff1a, w == 0xff1e:
